@@ -234,12 +234,38 @@ def check_input(
             bound_args = sig.bind_partial(*args)
             pos_args = bound_args.arguments
 
+            def _named_argument(name):
+                """``(True, value)`` if the argument ``name`` is passed by
+                keyword or left at its default, else ``(False, None)``."""
+                param = sig.parameters.get(name)
+                if name in kwargs:
+                    return True, kwargs[name]
+                if (
+                    param is not None
+                    and name not in pos_args
+                    and param.default is not inspect.Parameter.empty
+                    and param.kind is not inspect.Parameter.POSITIONAL_ONLY
+                ):
+                    return True, param.default
+                return False, None
+
             if isinstance(obj_getter, int):
+                arg_idx = obj_getter + 1 if is_method else obj_getter
+                param_names = [*sig.parameters]
+                named, obj = (
+                    _named_argument(param_names[arg_idx])
+                    if len(args) <= arg_idx < len(param_names)
+                    else (False, None)
+                )
                 try:
-                    arg_idx = obj_getter + 1 if is_method else obj_getter
-                    args[arg_idx] = schema.validate(
-                        args[arg_idx], *validate_args
-                    )
+                    if named:
+                        kwargs[param_names[arg_idx]] = schema.validate(
+                            obj, *validate_args
+                        )
+                    else:
+                        args[arg_idx] = schema.validate(
+                            args[arg_idx], *validate_args
+                        )
                 except IndexError as exc:
                     raise IndexError(
                         f"error in check_input decorator of function '{wrapped.__name__}': the "
@@ -248,10 +274,9 @@ def check_input(
                         f"index is 'max(0, len(_get_fn_argnames(fn)) - 1)'. The full error is: '{exc}'"
                     ) from exc
             elif isinstance(obj_getter, str):
-                if obj_getter in kwargs:
-                    kwargs[obj_getter] = schema.validate(
-                        kwargs[obj_getter], *validate_args
-                    )
+                named, obj = _named_argument(obj_getter)
+                if named:
+                    kwargs[obj_getter] = schema.validate(obj, *validate_args)
                 else:
                     arg_spec_args = _get_fn_argnames(wrapped)
                     pos_args[obj_getter] = schema.validate(
@@ -266,8 +291,8 @@ def check_input(
 
                     arg_idx = arg_spec_args.index(obj_arg_name)
 
-                    if obj_arg_name in kwargs:
-                        obj = kwargs[obj_arg_name]
+                    named, obj = _named_argument(obj_arg_name)
+                    if named:
                         kwargs[obj_arg_name] = schema.validate(
                             obj, *validate_args
                         )
